@@ -13,6 +13,7 @@ import logging
 import os
 import shutil
 import tempfile
+import time
 from types import SimpleNamespace
 
 
@@ -270,6 +271,64 @@ def probe_exec():
     finally:
         multiprocessing.Process = saved
     return start, ctor, wait
+
+
+def probe_snapshot():
+    """snap_pos: a worker delivers its result and exits right after the executor's drain of the result queue (the join of its
+    consumer thread): is that worker's future failed as dead in this very call (liveness sampled after the drain), or left for
+    the next call, which then finds the result (sampled before)?"""
+    import multiprocessing
+    import threading
+    import labtech.runners.process as P
+    if getattr(P, 'Thread', None) is not threading.Thread:
+        return None
+    fork = multiprocessing.get_context('fork')
+
+    class Ctx:
+        Process = _CtxProc
+
+        def __getattr__(self, name):
+            return getattr(fork, name)
+    hook = {}
+
+    class HookThread(threading.Thread):
+        def join(self, timeout=None):
+            super().join(timeout)
+            cb = hook.pop('cb', None)
+            if cb is not None:
+                cb()
+    saved = P.Thread
+    try:
+        ex = P.ProcessExecutor(mp_context=Ctx(), max_workers=1)
+        _Dummy.made = []
+        f = ex.submit(int)
+        if len(_Dummy.made) != 1:
+            return None
+        P.Thread = HookThread
+
+        def late():
+            ex._result_queue.put((f.id, 'late-result'))
+            time.sleep(0.05)
+            _Dummy.made[0].alive = False
+        hook['cb'] = late
+        ex.wait([f], timeout_seconds=0)
+        if 'cb' in hook:
+            return None                      # the drain does not go through a joined thread: nothing observed
+        first_done = f.done
+        if first_done:
+            try:
+                f.result()
+                return None
+            except BaseException:
+                return 'SnapAfter'
+        ex.wait([f], timeout_seconds=0.5)
+        if f.done and f.result() == 'late-result':
+            return 'SnapBefore'
+    except Exception:
+        return None
+    finally:
+        P.Thread = saved
+    return None
 
 
 def probe_storage():
@@ -800,6 +859,7 @@ def all_probes():
     out['p_final'] = _limited(probe_final)
     r = _limited(probe_exec) or (None, None, None)
     out['start'], out['ctor'], out['wait'] = r
+    out['snap'] = _limited(probe_snapshot)
     out.update(_limited(probe_storage) or {})
     r = _limited(probe_cache) or (None, None)
     out['order'], out['cleanup'] = r
